@@ -158,7 +158,7 @@ def run_impl(c):
         valid, errors = validate_lineages(a_nodes, edges, a_labels)
     except Exception as e:
         return {"exc": type(e).__name__}
-    out = {"valid": bool(valid), "named": named_ids(errors, "Lineage")}
+    out = {"valid": bool(valid), "named": named_ids(errors, "Lineage", set(c["labels"]))}
     if c.get("via") == "data":
         from geff.validate.data import ValidationConfig, validate_data
         from geff_spec import GeffMetadata
